@@ -4,6 +4,7 @@ import (
 	"container/heap"
 	"errors"
 	"sort"
+	"strings"
 	"sync"
 	"sync/atomic"
 	"testing/synctest"
@@ -77,7 +78,10 @@ type Sched struct {
 
 	// yield points
 	ymu       sync.Mutex
+	ownerGID  int
 	yEnabled  map[string]YieldSpec
+	yPrefix   []yPrefix
+	yArrivals map[string]uint64
 	yHits     map[string]int
 	yNew      []*parked
 	YieldHits map[string]int // per-site hit counters (reach probes)
@@ -101,6 +105,10 @@ type YieldSpec struct {
 	// thread") are then drawn with probability 0.4% instead of 7% so that most
 	// runs make progress between stalls.
 	Hot bool `json:"hot,omitempty"`
+	// Prob (0 = always): the goroutine parks at a hit of the site with this probability only
+	// (decided by H(seed, site, arrival index)); used for the automatic per-statement sites,
+	// which are enabled by prefix ("auto:receiver:" = every statement of receiver.go).
+	Prob float64 `json:"prob,omitempty"`
 }
 
 // NewSched creates the scheduler. Call inside the bubble.
@@ -112,7 +120,9 @@ func NewSched(seed uint64, log *Log) *Sched {
 		Log:       log,
 		start:     time.Now(),
 		wake:      make(chan struct{}, 1),
+		ownerGID:  GoID(),
 		yEnabled:  map[string]YieldSpec{},
+		yArrivals: map[string]uint64{},
 		yHits:     map[string]int{},
 		YieldHits: map[string]int{},
 	}
@@ -174,21 +184,67 @@ func (s *Sched) Busy() bool {
 }
 
 // EnableYield enables a yield site for this run.
-func (s *Sched) EnableYield(site string, spec YieldSpec) { s.yEnabled[site] = spec }
+func (s *Sched) EnableYield(site string, spec YieldSpec) {
+	if strings.HasSuffix(site, ":") {
+		s.yPrefix = append(s.yPrefix, yPrefix{site, spec})
+		return
+	}
+	s.yEnabled[site] = spec
+}
+
+type yPrefix struct {
+	prefix string
+	spec   YieldSpec
+}
+
+// autoGroup: "auto:receiver:Receiver.run:5" is counted as "auto:receiver".
+func autoGroup(site string) string {
+	if i := strings.Index(site[5:], ":"); i >= 0 {
+		return site[:5+i]
+	}
+	return site
+}
 
 // Yield is installed as verifhook.Yield: it parks the calling library
 // goroutine until S resumes it. A site not enabled for this run returns at
 // once (but is counted).
 func (s *Sched) Yield(site string) {
+	auto := strings.HasPrefix(site, "auto:")
 	s.ymu.Lock()
-	s.YieldHits[site]++
+	if auto {
+		s.YieldHits[autoGroup(site)]++
+	} else {
+		s.YieldHits[site]++
+	}
 	spec, ok := s.yEnabled[site]
+	if !ok && auto {
+		for _, p := range s.yPrefix {
+			if strings.HasPrefix(site, p.prefix) {
+				spec, ok = p.spec, true
+				s.yEnabled[site] = spec // holdFor looks the site up by name
+				break
+			}
+		}
+	}
 	if !ok {
 		s.ymu.Unlock()
 		return
 	}
-	_ = spec
+	if spec.Prob > 0 {
+		n := s.yArrivals[site]
+		s.yArrivals[site] = n + 1
+		if Unit(HS(s.Seed, "yieldprob", site, n)) >= spec.Prob {
+			s.ymu.Unlock()
+			return
+		}
+		s.YieldHits[autoGroup(site)+" parked"]++
+	}
 	s.ymu.Unlock()
+	if GoID() == s.ownerGID {
+		// the scheduler's own goroutine (set-up code of a run calling into the library): nobody
+		// could resume it
+		return
+	}
 	// The per-site hit index is assigned at collection time, in goroutine-id
 	// order, so that it does not depend on which of several goroutines woken by
 	// the same decision (e.g. a fan-out over a map of readers) got here first.
@@ -264,6 +320,7 @@ func (s *Sched) collectYields() {
 func (s *Sched) ReleaseAllYields() {
 	s.ymu.Lock()
 	s.yEnabled = map[string]YieldSpec{}
+	s.yPrefix = nil
 	nw := s.yNew
 	s.yNew = nil
 	s.ymu.Unlock()
